@@ -365,6 +365,35 @@ func cmdsMarshal(pkg string, cmds []appCmd) ([]byte, error) {
 	}
 }
 
+// cmdsKept: a command list decoded from b1 and kept by value (a second slice header) must not change when
+// the same variable decodes b2 afterwards. Returns a description of the change, or "".
+func cmdsKept(pkg string, up bool, b1, b2 []byte) string {
+	var target interface {
+		UnmarshalBinary(bool, []byte) error
+	}
+	switch pkg {
+	case "clocksync":
+		target = &clocksync.Commands{}
+	case "multicastsetup":
+		target = &multicastsetup.Commands{}
+	case "fragmentation":
+		target = &fragmentation.Commands{}
+	default:
+		target = &firmwaremanagement.Commands{}
+	}
+	if target.UnmarshalBinary(up, b1) != nil {
+		return ""
+	}
+	kept := reflect.New(reflect.TypeOf(target).Elem())
+	kept.Elem().Set(reflect.ValueOf(target).Elem())
+	before := core.Dump(kept.Interface())
+	target.UnmarshalBinary(up, b2)
+	if now := core.Dump(kept.Interface()); now != before {
+		return fmt.Sprintf("kept %s, now %s", short(before, 300), short(now, 300))
+	}
+	return ""
+}
+
 func cmdsUnmarshal(pkg string, up bool, b []byte) ([]appCmd, error) {
 	var out []appCmd
 	switch pkg {
@@ -510,6 +539,17 @@ func c18Stream(c *core.Ctx, r *core.RNG, types []appType) {
 	}
 	if g, w := dumpCmds(got), dumpCmds(cmds); g != w {
 		c.Violate(fmt.Sprintf("C18|%s|stream|up=%v|sequence-differs", pkg, up), "sent %s\n got %s\n bytes %x", w, g, b)
+	}
+	// a sequence decoded earlier and kept stays what it was when the same variable decodes another payload
+	if len(b) > 2 {
+		b2 := append([]byte{}, b[len(b)/2:]...)
+		if r.Bool() {
+			b2 = append(append([]byte{}, b...), b[:len(b)/3]...)
+		}
+		c.Eval(1)
+		if diff := cmdsKept(pkg, up, b, b2); diff != "" {
+			c.Violate(fmt.Sprintf("C18|%s|stream|kept-sequence-changed", pkg), "commands decoded from %x and kept by value changed when the same variable decoded %x: %s", b, b2, diff)
+		}
 	}
 	c.Shape("stream", pkg, up, shape)
 	if c.WantSample("stream") {
